@@ -700,6 +700,9 @@ func edgeDescent(e *callgraph.Edge) string {
 	return best
 }
 
+// cyclicFields: pointer fields that may lead back to an ancestor of the value they belong to.
+var cyclicFields = map[string]bool{"yaml.Node.Alias": true}
+
 // derivedFromParam: 0 = no, 1 = is a parameter (possibly converted), 2 = strictly inside a parameter.
 func derivedFromParam(v ssa.Value, params map[ssa.Value]bool, depth int, seen map[ssa.Value]bool) int {
 	if depth > 12 || seen[v] {
@@ -721,6 +724,11 @@ func derivedFromParam(v ssa.Value, params map[ssa.Value]bool, depth int, seen ma
 		if x.Op == token.MUL {
 			switch a := x.X.(type) {
 			case *ssa.FieldAddr:
+				// a field that can point back into the structure is not a descent: yaml.Node.Alias refers to the anchored
+				// node, which may be an ancestor (`&a {foo: *a}`), so following it does not terminate on every input
+				if cyclicFields[fieldAddrName(a)] {
+					return 0
+				}
 				return step(a.X)
 			case *ssa.IndexAddr:
 				return step(a.X)
